@@ -151,7 +151,16 @@ class Shifts(Stage):
         nmsg = d.int(3, 28)
         specs = histgen.history(d, nconn=d.int(1, 2), nmsg=nmsg, profile=PROFILE, t0=d.choice([0, 1, 999, 1000, 123456, 59_999_999]),
                                 gaps=[0, 1, 13, 250, 999, 1000, 999_999, 1_000_001, 1_000_001, 999_999, 500_000, 500_001, 2_500_000, 60_000_000])
-        last = specs[-1]['t_us']
+        order = 'chronological'
+        if d.chance(0.15):
+            # a log that is not chronological with respect to its first line (several processes writing one log, a wrapped
+            # 32-bit clock): later lines may carry earlier times; shown times may then be negative
+            order = 'not-chronological'
+            base = specs[0]['t_us']
+            for m in specs[1:]:
+                if d.chance(0.4):
+                    m['t_us'] = max(0, base - d.choice([1, 999, 1_000_001, 2_500_000, d.int(0, 5_000_000)]) + (m['t_us'] - base) // 7)
+        last = max(m['t_us'] for m in specs)
         room = histgen.T_MAX - last
         shift = d.choice([0, 1, 999, 1000, 1_000_000, 3_999_999_999, room]) if d.chance(0.6) else d.int(0, room)
         shift = max(0, min(shift, room))
@@ -170,7 +179,7 @@ class Shifts(Stage):
         for _ in range(d.int(0, 3)):
             lists.append('list ' + (d.choice(['*', 'wl_display', '.delete_id', 'A:', '', 'wl_registry', '.new', 'wl_callback', '.bind', '* ! wl_display', 'B:', '* ! wl_registry'])
                                     if d.chance(0.7) else scripts.gen_matcher_text(d, g2)))
-        return dict(specs=specs, dialect=d.choice(['new', 'old', 'old-comma']), shift=shift, filter=flt, lists=lists)
+        return dict(specs=specs, dialect=d.choice(['new', 'old', 'old-comma']), shift=shift, filter=flt, lists=lists, order=order)
 
     def execute(self, case):
         res = Result()
@@ -193,6 +202,7 @@ class Shifts(Stage):
         res.label('dialect:' + case['dialect'])
         if case['shift']: res.label('shifted')
         if case['lists']: res.label('with-listing')
+        res.label(case.get('order', 'chronological'))
         res.sample = dict(dialect=case['dialect'], shift=case['shift'], filter=case.get('filter'), lines=render_lines(case['specs'], case['dialect'])[:6], lists=case['lists'])
         return res
 
